@@ -1,6 +1,7 @@
 (* C14 -- Observing the IR never changes it. *)
 From Coq Require Import List Bool ZArith.
-From LLIR Require Import Model.Numbering Model.History Proofs.NumberingProofs Proofs.HistoryProofs.
+From Coq Require Import String.
+From LLIR Require Import Model.Numbering Model.History Gen.Printers Proofs.NumberingProofs Proofs.HistoryProofs Proofs.ObserverProofs.
 Import ListNotations.
 Local Open Scope Z_scope.
 
@@ -26,3 +27,21 @@ Proof. exact print_then_edit. Qed.
    print, insert an unnamed instruction at the front, print *)
 Theorem C14_print_then_edit_refuted : exists l o, run [Print; o; Print] l = None /\ run [o; Print] l <> None.
 Proof. exact print_then_edit_refuted. Qed.
+
+(* what the history model takes for granted about the observers, read off the regenerated bodies of all
+   491 observer methods (String / LLString / Ident / Type / WriteTo) as they are in the source now: none
+   writes to an object that existed before the call, except that a Type method fills its own cache under
+   the test that it is empty (so what it returns later does not depend on whether it was called before:
+   the cached value is what it would compute, as long as the fields it is computed from are assigned through
+   the constructors -- the boundary the module-wide histories of the harness probe) ... *)
+Theorem C14_observers_write_only_empty_type_caches : forallb write_ok observers = true.
+Proof. exact observers_write_only_the_type_cache. Qed.
+(* ... and the only effectful methods they call are the three ID passes, reached from the printers of a
+   function and of a module only (the Print operation of the model) *)
+Theorem C14_observers_call_only_id_passes :
+  forallb (fun p => forallb (fun m => ObserverProofs.mem m pure_calls || ObserverProofs.mem m id_passes) (flat_map scalls (p_body p))) observers = true.
+Proof. exact observers_call_only_id_passes. Qed.
+Theorem C14_id_passes_called_from :
+  map (fun p => (p_type p, p_method p)) (filter (fun p => existsb (fun m => ObserverProofs.mem m id_passes) (flat_map scalls (p_body p))) observers)
+  = [("ir.Func", "LLString"); ("ir.Module", "WriteTo")]%string.
+Proof. exact id_passes_called_from. Qed.
